@@ -158,6 +158,24 @@ And whoever answers is a candidate at all. -/
 
 def lower (s : C13.Str) : C13.Str := s.map C13.lowerByte
 
+/-! the hypotheses of `Props.C13TableSpec.model_meets_table_spec` about a dump, tested by the driver on every case -/
+
+/-- no element twice -/
+def nodupB : List C13.Str → Bool
+  | [] => true
+  | x :: xs => !xs.contains x && nodupB xs
+
+/-- longest path first -/
+def sortedB : List DRoute → Bool
+  | [] => true
+  | r :: rs => rs.all (fun b => decide (r.path.length ≥ b.path.length)) && sortedB rs
+
+/-- the hypotheses of `model_meets_table_spec` about a dump, as a test the driver runs on every dumped table:
+lower-case keys, every key once, within a key the longest path first -/
+def wellFormedB (d : DTable) : Bool :=
+  d.all (fun kv => lower kv.1 == kv.1) && nodupB (d.map (fun kv => kv.1)) && d.all (fun kv => sortedB kv.2)
+
+
 /-- default port of the connection removed, lower case -/
 def specNorm (h : C13.Str) (tls : Bool) : C13.Str :=
   let r := h.reverse
